@@ -3,6 +3,7 @@ import Driver.GTreeIO
 import GeosModel.Base.F64
 import GeosModel.Base.Kernel
 import GeosModel.Model.Tri.Check
+import GeosModel.Model.Tri.Predicates
 /-! Driver for C16 (`drv_c16 <stream>`): reads case lines carrying the input bits and the implementation's
 output bits, runs the exact certificate checkers of `Model/Tri/Check.lean`, and answers `ok` or
 `FAIL <clause> <offender>`.  The verdict is `isTriangulationOf`/`isDelaunay`/`isCDTOf`/… themselves; the
@@ -327,11 +328,29 @@ def voronoi (line : String) : String :=
     | _, _, _ => "bad-line"
   | _ => "bad-line"
 
+/-- stream `predicates`: `PR <8 hex doubles>` (points a b c d) → what the models of the implementation's decision functions
+(`Model/Tri/Predicates.lean`, `Kernel.det`) answer: `isInCircleRobust isInCircleNormalized isInCircleNonRobust isCCW rightOf leftOf isInCircle`
+(locations numbered as `geom::Location`).  All of them are invariant under the common scaling of `scaleGroups`. -/
+def predicates (line : String) : String :=
+  let locNum : Loc3 → Nat := fun l => match l with | .I => 0 | .B => 1 | .E => 2
+  let b2n : Bool → Nat := fun b => if b then 1 else 0
+  match Driver.tokens line with
+  | "PR" :: ws =>
+    match ws.mapM Driver.parseHex64 with
+    | some [ax, ay, bx, by', cx, cy, dx, dy] =>
+      match scaleGroups [] [[(ax, ay), (bx, by'), (cx, cy), (dx, dy)]] with
+      | some (_, _, [[a, b, c, d]]) =>
+        s!"{locNum (robustInCircleLoc a b c d)} {locNum (inCircleLoc a b c d)} {locNum (inCircleLoc b a c d)} " ++
+        s!"{b2n (decide (0 < Kernel.det a b c))} {b2n (decide (Kernel.det b c a < 0))} {b2n (decide (0 < Kernel.det b c a))} {b2n (flipInCircle a b c d)}"
+      | _ => "bad-scale"
+    | _ => "bad-line"
+  | _ => "bad-line"
+
 end Driver.C16
 
 def main (args : List String) : IO UInt32 := do
   let handlers : List (String × (String → String)) :=
-    [("delaunay", Driver.C16.delaunay), ("cdt", Driver.C16.cdt), ("voronoi", Driver.C16.voronoi),
+    [("delaunay", Driver.C16.delaunay), ("cdt", Driver.C16.cdt), ("voronoi", Driver.C16.voronoi), ("predicates", Driver.C16.predicates),
      -- object-reuse self-consistency: the specification is a function of the sites, so repeated queries of one builder agree
      ("reuse", fun line => if line.startsWith "RU " then "consistent" else "bad-line")]
   match args with
